@@ -21,6 +21,7 @@ ValOK(e) ==
   IN IF n = 0 THEN TRUE          \* above 2^62-1: outside the property
      ELSE /\ NoPanic(e.append_panic) /\ NoPanic(e.size_panic) /\ NoPanic(e.dec_panic)
           /\ e.out = e.prefix \o VarintEnc(e.v)      \* prefix untouched, shortest form
+          /\ e.spare_ok                              \* ... and nothing but that form is written to the destination
           /\ e.size = n
           /\ e.dec_n = n /\ e.dec_v = e.v /\ e.dec_i64 = e.v
 
@@ -46,6 +47,8 @@ BytesOK(e) ==
   /\ NoPanic(e.avb_panic)
   /\ e.avb_out = e.prefix \o VarintBytesEnc(e.s)
   /\ e.avb_back = e.s
+  \* (in-place framing - the payload lies behind the destination, where its encoding puts it - is a round trip too)
+  /\ NoPanic(e.inplace_panic) /\ e.inplace_out = VarintBytesEnc(e.s)
   /\ e.avb_n = Len(VarintBytesEnc(e.s))
   \* a string too long for an 8-bit length prefix is refused (the library panics): it never yields an encoding, which
   \* could not decode back to the string
